@@ -219,8 +219,10 @@ func (s *Map[K, V]) Store(key K, value V) {
 			// (the Store would be lost while LoadAndDelete returns the old value).
 			nodeFound.mu.Lock()
 			if !nodeFound.flags.Get(marked) {
-				// We don't need to care about whether or not the node is fully linked,
-				// just replace the value.
+				for !nodeFound.flags.Get(fullyLinked) {
+					// The node is not yet fully linked (Load and Delete do not see it yet),
+					// just waits until it is.
+				}
 				nodeFound.storeVal(value)
 				nodeFound.mu.Unlock()
 				return
@@ -386,8 +388,10 @@ func (s *Map[K, V]) LoadOrStore(key K, value V) (actual V, loaded bool) {
 		nodeFound := s.findNode(key, &preds, &succs)
 		if nodeFound != nil { // indicating the key is already in the skip-list
 			if !nodeFound.flags.Get(marked) {
-				// We don't need to care about whether or not the node is fully linked,
-				// just return the value.
+				for !nodeFound.flags.Get(fullyLinked) {
+					// The node is not yet fully linked (Load and Delete do not see it yet),
+					// just waits until it is.
+				}
 				return nodeFound.loadVal(), true
 			}
 			// If the node is marked, represents some other goroutines is in the process of deleting this node,
@@ -456,8 +460,10 @@ func (s *Map[K, V]) LoadOrStoreLazy(key K, f func() V) (actual V, loaded bool) {
 		nodeFound := s.findNode(key, &preds, &succs)
 		if nodeFound != nil { // indicating the key is already in the skip-list
 			if !nodeFound.flags.Get(marked) {
-				// We don't need to care about whether or not the node is fully linked,
-				// just return the value.
+				for !nodeFound.flags.Get(fullyLinked) {
+					// The node is not yet fully linked (Load and Delete do not see it yet),
+					// just waits until it is.
+				}
 				return nodeFound.loadVal(), true
 			}
 			// If the node is marked, represents some other goroutines is in the process of deleting this node,
